@@ -30,14 +30,15 @@ From RbpfV Require Import MachInt Ebpf Cases Mem InterpDefs Stack Helpers Interp
 Import ListNotations.
 Open Scope Z_scope.
 Definition data_of (m : mem) (k : nat) : list Z := r_data (nth k m {| r_base := 0; r_data := [] |}).
-(* the raw VM: r1 (rdi) = R10 = packet address, rbp = top of a 512-byte stack of the model's own; every other register 0 *)
-Definition check_jit (prog : list Z) (mem_ : region) (fuel v : Z) (xmem_ : list Z) : Z :=
+(* the raw VM: r1 (rdi) = R10 = packet address, rbp = top of a 512-byte stack of the model's own; every other register 0,
+   and 0 left by the helpers in the caller-saved registers *)
+Definition check_jit (prog : list Z) (mem_ : region) (helpers : list (Z * Z)) (fuel v : Z) (xmem_ : list Z) : Z :=
   let mb := {| r_base := 0x10; r_data := [] |} in
-  let E := mk_env prog (fun _ => None) (fun _ => None) mb mem_ 0x700000000000 [] in
+  let E := mk_env prog (helpers_of helpers) (fun _ => None) mb mem_ 0x700000000000 [] in
   let m0 := mk_mem mb mem_ 0x700000000000 {| r_base := 0x7f0000000000; r_data := [] |} in
   let base := r_base mem_ in
   let R0 : regs := fun x => if x =? 10 then base else if x =? 7 then base else if x =? 5 then 0x700000000200 else 0 in
-  match jit_steps (Z.to_nat fuel) E (R0, 0, m0) with
+  match jit_steps (fun _ _ => 0) (Z.to_nat fuel) E (R0, 0, m0) with
   | ODone r m => if (r =? v) && list_eqb (data_of m 1) xmem_ then 0 else 1
   | _ => 1
   end.
@@ -46,13 +47,15 @@ Definition check_jit (prog : list Z) (mem_ : region) (fuel v : Z) (xmem_ : list 
 
 def jit_model_correspondence(chk, binary, cases):
     """the hand-written composition JitStep.jit_exec / JitRun.jit_steps (what C03_step_simulates / C03_run_refines speak
-    about) evaluated inside Coq against the real JIT-compiled code on the raw VM, for programs without calls"""
+    about) evaluated inside Coq against the real JIT-compiled code on the raw VM, for programs without local calls"""
     from checks.interp_common import parse_answer, region
     from vlib import zhex
 
-    def has_call(p):
-        return any(p[k] == 0x85 for k in range(0, len(p), 8))
-    sel = [c for c in cases if len(c.prog) <= 1600 and not c.ranges and not c.helpers and not has_call(c.prog)]
+    from checks.interp_common import HELPER_CODES
+
+    def has_local_call(p):
+        return any(p[k] == 0x85 and (p[k + 1] >> 4) != 0 for k in range(0, len(p), 8))
+    sel = [c for c in cases if len(c.prog) <= 1600 and not c.ranges and not has_local_call(c.prog) and all(n in HELPER_CODES for _, n in c.helpers)]
     sel = sel[::1 if chk.tier == 'thorough' else 3]
     ans = [parse_answer(x) for x in vlib.harness_run(binary, [c.line(engine='jit', kind='raw') for c in sel])]
     terms, idx, outs = [], [], {}
@@ -62,7 +65,8 @@ def jit_model_correspondence(chk, binary, cases):
         if a['status'] != 0 or 'L' not in a:
             continue
         memb = a['L'][0]
-        terms.append('(check_jit %s %s %d %d %s)' % (zhex(c.prog), region(memb, c.mem), c.budget, a['val'], zhex(a['mem'])))
+        terms.append('(check_jit %s %s %s %d %d %s)' % (zhex(c.prog), region(memb, c.mem), '[%s]' % '; '.join('(%d, %d)' % (i2, HELPER_CODES[n]) for i2, n in c.helpers),
+                                                         c.budget, a['val'], zhex(a['mem'])))
         idx.append(i)
     bad, errors = vlib.coq_eval('C03jit', JIT_HEADER, terms, '(fun c => c)', shard_size=120)
     if errors:
@@ -153,7 +157,9 @@ def run(chk, engine=ENGINE, prop='C03'):
         cl_bad = []
         if engine == 'jit':
             try:
-                for (c, a) in jit_model_correspondence(chk, binary, cases):
+                from checks import C08 as _C08
+                hc = [c for c in _C08.gen_cases(chk) if all(n != 'rsp' for _, n in c.helpers)]
+                for (c, a) in jit_model_correspondence(chk, binary, list(cases) + hc * 3):
                     found = True
                     if len(chk.violations) < 10:
                         chk.violation({'kind': 'counterexample', 'request': c.line(engine='jit', kind='raw'), 'engine_answer': a['raw'][:200], 'family': c.fam,
